@@ -273,6 +273,10 @@ def build_file(case):
     secs = [{'name': '', 'sh_type': 0}]
     carrier = {'name': '.note.x' if view != 'seg' else '.rodata', 'sh_type': SHT_NOTE if view != 'seg' else SHT_PROGBITS,
                'sh_flags': 2, 'sh_addr': lay.get('addr', 0x400000), 'sh_addralign': 4, 'data': blob, 'file_align': 4}
+    if lay.get('unaligned'):
+        # a note extent need not start on a 4-byte file offset (sh_addralign 1: objcopy --add-section, hand-written assembly): the
+        # padding of names and descriptors counts from the start of the extent, not from the start of the file
+        carrier.update(sh_addralign=1, file_align=1)
     decoy = {'name': '.data', 'sh_type': SHT_PROGBITS, 'sh_flags': 3, 'sh_addr': 0x600000, 'sh_addralign': 1,
              'data': bytes(lay.get('decoy', b'\x01\x02\x03'))}
     secs.append(decoy)
@@ -305,7 +309,7 @@ def build_file(case):
         tail = lay.get('tail', 0)
     m = {'cls': cls, 'le': le, 'e_type': case['e_type'], 'e_machine': case['e_machine'], 'osabi': lay.get('osabi', 0),
          'sections': secs, 'segments': segs, 'shstrndx': shstr, 'order': order,
-         'gaps': {str(ci): 4 * lay.get('gap4', 0)}, 'tail': tail}
+         'gaps': {str(ci): 4 * lay.get('gap4', 0) + (lay.get('unaligned') or 0)}, 'tail': tail}
     data, R = W.build(m)
     return data, R, exp, blob, {'sec': ci if view != 'seg' else None, 'seg': gi, 'carrier': ci, 'stab': si}
 
@@ -668,6 +672,8 @@ def run_case(ctx, case):
             ctx.fail('views-differ', 'section view yields %d notes, segment view %d; first difference at index %d: %r vs %r'
                      % (len(sa), len(sb), k, sa[k] if k < len(sa) else None, sb[k] if k < len(sb) else None), case)
         ctx.count('views.compared')
+    if base % 4:
+        ctx.count('extent.offset-not-multiple-of-4')
     # the same walks consumed step by step, with the stream moved, a nested walk started and another question asked between two steps
     for v, obj in (('section', ef.get_section(ix['sec']) if 'sec' in results else None), ('segment', ef.get_segment(ix['seg']) if 'seg' in results else None)):
         if obj is None or results[v[:3]][1] is not None:
@@ -837,7 +843,7 @@ def gen_layout(ch, cls):
     return {'gap4': ch.choice([0, 0, 1, 2, 5]), 'at_end': ch.bool(0.4), 'tail': ch.choice([0, 0, 3, 16]),
             'decoy': ch.bytes(0, 9), 'addr': ch.word(cls) & ~3, 'p_vaddr': ch.word(cls), 'p_paddr': ch.word(cls),
             'p_memsz': ch.choice([0, 0, 1, ch.word(cls)]), 'stab_addr': ch.word(cls) & ~3,
-            'osabi': ch.choice([0, 0, 3, 9])}
+            'osabi': ch.choice([0, 0, 3, 9]), 'unaligned': ch.choice([0, 0, 0, 1, 2, 3])}
 
 
 def gen_stabs(ch):
@@ -1035,7 +1041,8 @@ def floors(ctx):
              'treat.bytes', 'treat.abi', 'treat.bid', 'treat.gold', 'treat.prop', 'treat.psinfo', 'treat.file', 'treat.collision',
              'namesz=0', 'name.non-ascii', 'final.header-only', 'prop.multi', 'prop.empty', 'prop.stack', 'prop.nocopy', 'prop.word',
              'prop.unk', 'psinfo.elf32.ugid16', 'psinfo.elf32.ugid32', 'psinfo.elf64.ugid32', 'file.maps.0', 'file.maps.2',
-             'stabs.sections', 'stabs.records', 'stabs.empty', 'layout.extent-at-eof']
+             'stabs.sections', 'stabs.records', 'stabs.empty', 'layout.extent-at-eof', 'extent.offset-not-multiple-of-4', 'walk.stepwise',
+             'stream.minimal', 'stream.mmap', 'stream.file']
     need += ['prop.word.strict.%#x' % t for t in sorted(PR_WORDS)] + ['prop.word.word', 'prop.word.loose']
     need += ['namesz%%4=%d' % r for r in range(4)] + ['descsz%%4=%d' % r for r in range(4)]
     return ['no case with ' + k for k in need if c[k] == 0]
